@@ -81,3 +81,23 @@ int vf_clock_gettime(clockid_t id, struct timespec *ts)
 	*ts = vf_clock_now;
 	return 0;
 }
+
+/* ---- dump the write(2) call log when the process aborts (hard write error => assertion) ---- */
+#include <signal.h>
+static char vf_calls_path[320];
+static void vf_abort_handler(int sig)
+{
+	(void)sig;
+	FILE *cf = fopen(vf_calls_path, "w");
+	if (cf) {
+		for (int c = 0; c < vf_write_ncalls; c++) fprintf(cf, "%s%zu", c ? "," : "", vf_write_calls[c].n);
+		fclose(cf);
+	}
+	signal(SIGABRT, SIG_DFL);
+	raise(SIGABRT);
+}
+void vf_dump_calls_on_abort(const char *path)
+{
+	strncpy(vf_calls_path, path, sizeof vf_calls_path - 1);
+	signal(SIGABRT, vf_abort_handler);
+}
